@@ -1,7 +1,7 @@
 (** C19 — Instance-name routing: longest-prefix demultiplexing with prefix
     rewriting, instance-name trie, patcher, hierarchical instance names.
     Statements only; proofs are in Routing/*Proofs.v. *)
-From BBS Require Import Common.Sx Routing.Names Routing.NamesProofs Routing.Trie Routing.TrieProofs Routing.TrieFull
+From BBS Require Import Common.Sx Routing.Names Routing.NamesProofs Routing.Trie Routing.TrieProofs Routing.TrieFull Routing.TrieFullMon Routing.TrieFullMonHier Routing.TrieFullMonPatcher
   Routing.Patcher Routing.PatcherProofs Routing.Demux Routing.DemuxProofs Routing.HierNames Routing.HierProofs Run.R19.
 Open Scope Z_scope.
 
@@ -56,7 +56,9 @@ Print Assumptions reachable_trie_without_names_is_empty.
     an absent name whose node does not exist is [Panic] in the model (nil
     dereference in Go), hence the hypothesis. *)
 Theorem remove_spec : forall t n, reach t -> 0 <= assoc_get (to_map t) n ->
-  exists t' b, remove t n = Ok (t', b) /    (forall m, assoc_get (to_map t') m = assoc_get (assoc_remove (to_map t) n) m) /    (b = true <-> forall m, assoc_get (to_map t') m = -1).
+  exists t' b, remove t n = Ok (t', b) /\
+    (forall m, assoc_get (to_map t') m = assoc_get (assoc_remove (to_map t) n) m) /\
+    (b = true <-> forall m, assoc_get (to_map t') m = -1).
 Proof. exact remove_to_map_full. Qed.
 Print Assumptions remove_spec.
 
@@ -77,6 +79,43 @@ Example remove_example :
      = Ok (Node (-1) [(a, Node (-1) [(a, Node 4 [])])], false)
   /\ remove (set (set empty_trie [a; b] 3) [a] 4) [a] = Ok (set empty_trie [a; b] 3, false).
 Proof. vm_compute. repeat split; reflexivity. Qed.
+
+(** The monitor is silent on the model's own output — trie histories (input kind 0).
+    Full statement: for every input on which the model does not panic,
+      mon19 inp (run19 inp) = nil
+    (all four input kinds).  Proved here for kind 0: all three trie clauses
+    (1 longest prefix, 2 exact lookup / membership, 3 Remove's "became empty")
+    hold of what the model answers, for every history; the model panics only on a
+    Remove of a name whose node does not exist (second theorem: no panic when
+    every Remove is of a registered name and every Set value is >= 0). *)
+Theorem monitor_silent_on_model_trie_partial : forall inp,
+  sx_Z (sx_nth inp 0) = 0 ->
+  run_trie (sx_list (sx_nth inp 1)) empty_trie <> None ->
+  mon19 inp (run19 inp) = nil.
+Proof. exact mon19_silent_on_trie_model. Qed.
+Print Assumptions monitor_silent_on_model_trie_partial.
+
+Theorem trie_model_no_panic_on_registered_removes : forall inp,
+  sx_Z (sx_nth inp 0) = 0 ->
+  removes_registered (sx_list (sx_nth inp 1)) nil ->
+  run_trie (sx_list (sx_nth inp 1)) empty_trie <> None /\ mon19 inp (run19 inp) = nil.
+Proof. exact mon19_silent_on_trie_model_registered. Qed.
+Print Assumptions trie_model_no_panic_on_registered_removes.
+
+(** ... patcher inputs (kind 1), clauses 4 and 5: no hypothesis *)
+Theorem monitor_silent_on_model_patcher : forall inp,
+  sx_Z (sx_nth inp 0) = 1 -> mon19 inp (run19 inp) = nil.
+Proof. exact mon19_silent_on_patcher_model. Qed.
+Print Assumptions monitor_silent_on_model_patcher.
+
+(** ... hierarchical-decorator inputs (kind 3 and every kind other than 0, 1, 2),
+    clauses 11-14, any backend description including error names and FindMissing
+    faults at any call: no hypothesis *)
+Theorem monitor_silent_on_model_hier : forall inp,
+  sx_Z (sx_nth inp 0) <> 0 -> sx_Z (sx_nth inp 0) <> 1 -> sx_Z (sx_nth inp 0) <> 2 ->
+  mon19 inp (run19 inp) = nil.
+Proof. exact mon19_silent_on_hier_model. Qed.
+Print Assumptions monitor_silent_on_model_hier.
 
 (** "ab" has the string prefix "a" but not the component prefix: it is not
     routed to "a"; "a/b" is. *)
